@@ -132,7 +132,7 @@ def check_C11(tier, replay=None):
     else:
         runs.append(("MC_C11_f4", {"File": F4, "FileSeq": "<- FileSeq4", "Extras": "<- NoExtras", "Siblings": "<- Sib3", "MaxCalls": "1", "RefsOn": "FALSE"}))
         runs.append(("MC_C11_f3x", {"File": F3, "FileSeq": "<- FileSeq3", "Extras": "<- AllExtras", "Siblings": "<- Sib3", "MaxCalls": "3", "RefsOn": "FALSE"}))
-        runs.append(("MC_C11_f4refs", {"File": F4, "FileSeq": "<- FileSeq4", "Extras": "<- NoExtras", "Siblings": "<- NoSib", "MaxCalls": "1", "RefsOn": "TRUE"}))
+        runs.append(("MC_C11_f4refs_random", {"File": F4, "FileSeq": "<- FileSeq4", "Extras": "<- NoExtras", "Siblings": "<- NoSib", "MaxCalls": "1", "RefsOn": "TRUE", "Sample": "4000", "_spec": "MCSpecRandom"}))
         F6 = '{"f1.xsd","f2.xsd","f3.xsd","f4.xsd","f5.xsd","f6.xsd"}'
         runs.append(("MC_C11_f6random", {"File": F6, "FileSeq": "<- FileSeq6", "Extras": "<- NoExtras", "Siblings": "<- Sib3", "MaxCalls": "1", "RefsOn": "TRUE", "Sample": "1500", "_spec": "MCSpecRandom"}))
     z.build_harness()
